@@ -250,6 +250,49 @@ fn waits_full_backoff() {
     std::mem::forget(r);
 }
 
+/// The backoff is measured from the FAILURE of the attempt, not from its start: an attempt
+/// that itself took `lat` is still followed by the full backoff.
+#[kani::proof]
+#[kani::unwind(5)]
+#[kani::stub(std::time::Instant::now, tokio::model::std_instant_now)]
+#[kani::stub(catch_unwind, crate::verif_kani::env::catch_unwind_stub)]
+fn waits_full_backoff_after_slow_attempt() {
+    // the attempt takes a fixed 2 s (a symbolic latency on top of the symbolic backoff and the
+    // symbolic probe instant ran past 10 minutes); backoff and probe instant are symbolic
+    let lat = Duration::from_secs(2);
+    let d = any_millis(10_000);
+    kani::assume(d > Duration::ZERO);
+    gh().delays = [d, d, d];
+    let interval = FnInterval::new(|k: usize| gh().delays[k.min(2)]);
+    let cfg = RetryConfig {
+        policy: RetryPolicy::<InnerErr>::new(Arc::new(interval)),
+        max_attempts_source: MaxAttemptsSource::Fixed(2),
+        event_listeners: tower_resilience_core::EventListeners::new(),
+        name: String::new(),
+        budget: None,
+    };
+    let mut script = svc::any_script();
+    script.never = false;
+    script.immediate = false;
+    script.latency = Some(lat);
+    script.outcomes[0] = Err(kani::any());
+    let mut r = Retry::new(Inner::new(script), Arc::new(cfg), PhantomData);
+    let _ = svc::poll_ready_once(&mut r);
+    let mut fut = r.call(kani::any());
+    let p = svc::poll_once(fut.as_mut());
+    assert!(p.is_pending() && mon().calls == 1 && mon().completed == 0, "[C05.first_attempt_running] the first attempt is running");
+    model::advance(lat);
+    let p = svc::poll_once(fut.as_mut()); // the attempt fails now
+    assert!(p.is_pending() && mon().calls == 1 && mon().completed == 1, "[C05.waits_backoff] after a retryable failure the call backs off");
+    let early = any_millis(10_000);
+    kani::assume(early < d);
+    model::advance(early);
+    let p = svc::poll_once(fut.as_mut());
+    assert!(p.is_pending() && mon().calls == 1, "[C05.waits_backoff] no retry before the full backoff has elapsed SINCE THE FAILURE (the attempt's own duration does not count)");
+    std::mem::forget(fut);
+    std::mem::forget(r);
+}
+
 /// KNOWN FINDING witness (C20 readiness): retries are issued on the same service value
 /// without polling it ready again.
 #[kani::proof]
@@ -331,6 +374,18 @@ fn builder_is_faithful() {
     let e: u32 = kani::any();
     assert!(c.policy.should_retry(&InnerErr(e)) == (!with_pred || e & 1 == 0), "[C05.config_predicate_used] the configured retry predicate decides (default: every error is retryable)");
     assert!(c.budget.is_some() == with_budget, "[C05.config_budget_used] a configured budget is installed, none otherwise");
+    std::mem::forget(r);
+    std::mem::forget(layer);
+}
+
+/// C20 readiness clause for retry: see svc::check_readiness_passthrough.
+#[kani::proof]
+#[kani::unwind(4)]
+fn readiness_passthrough() {
+    use tower::Layer;
+    let layer = crate::RetryLayer::<u32, InnerErr>::builder().max_attempts(2).fixed_backoff(Duration::ZERO).build();
+    let mut r = layer.layer(Inner::new(svc::any_script()));
+    svc::check_readiness_passthrough(&mut r);
     std::mem::forget(r);
     std::mem::forget(layer);
 }
